@@ -134,10 +134,18 @@ impl<'a> TryFrom<&'a str> for &'a DataUrl {
 }
 
 /// Owned data URL.
-#[derive(Debug, Clone, PartialEq, Eq, PartialOrd, Ord, Hash)]
+#[derive(Debug, Clone, PartialEq, Eq, PartialOrd, Ord)]
 pub struct DataUrlBuf {
 	url: UriBuf,
 	delimiters: DataUrlDelimiters,
+}
+
+impl std::hash::Hash for DataUrlBuf {
+	/// Hashes like the borrowed [`DataUrl`] (`DataUrlBuf: Borrow<DataUrl>`): the
+	/// cached delimiters are a function of the URL and take no part.
+	fn hash<H: std::hash::Hasher>(&self, state: &mut H) {
+		self.as_data_url().hash(state)
+	}
 }
 
 impl DataUrlBuf {
